@@ -72,6 +72,8 @@ def cstate(s):
         t = s["t"]
         terms = "(mkTerms %s %s %s %s)" % (zs(t["ls"]), zs(t["rs"]), cz(t["lb"]), cz(t["rb"]))
         l = s["l"]
+        if l["k"] == "Bad" or s["r"]["k"] == "Bad":
+            return "(SDead XFuel)"   # a state shape the model does not have: always a mismatch
         ls = {"Start": "LStart", "Err": "LErr"}.get(l["k"])
         if l["k"] == "OfferSent":
             ls = "(LOfferSent %s %s)" % (cz(l["fee"]), cdesc(l["d"]))
@@ -261,6 +263,8 @@ def rbf_predicate(c):
                         f.append(("C17_rbf_agree", "%s countersigned fee %d above the closer's balance"
                                   % (nm, m["fee"])))
             # local close completed: the peer broadcast the very same transaction before
+            if s["s"] == "Negotiation" and "Bad" in (s["l"]["k"], s["r"]["k"]):
+                f.append(("C17_rbf_progress", "%s: peer state of an unexpected shape: %s / %s" % (nm, s["l"], s["r"])))
             if s["s"] == "Negotiation" and s["l"]["k"] == "Pending":
                 prev = n["steps"][i - 1]["st"] if i else None
                 newly = not (prev and prev["s"] == "Negotiation" and prev["l"] == s["l"])
